@@ -256,7 +256,8 @@ pub fn run_batch(scn: &dyn Scenario, tier: Tier, seed: u64, total: u64, workers:
         }
         while counted < agg.violations.len() {
             let v = &agg.violations[counted].1;
-            if known.lookup(&v.property, &v.signature).is_none() {
+            // only this check's own, unlisted violations decide the verdict and the early stop
+            if v.property == id && known.lookup(&v.property, &v.signature).is_none() {
                 unknown += 1;
             }
             counted += 1;
